@@ -270,8 +270,9 @@ func RunCheck(cfg *CheckConfig) int {
 				undecided = append(undecided, fmt.Sprintf("UNDECIDED property=%s obligation=%s reason=solver-%s-on-unchanged-vc", cfg.Property, r.Name, r.Status))
 				continue
 			}
-			if inBase || cfg.NoBaseline {
-				// the obligation was discharged on the unchanged tree and its VC changed: the proof no longer goes through
+			if inBase || cfg.NoBaseline || len(baseP) > 0 {
+				// the obligation's VC is not the one discharged on the unchanged tree (changed or new):
+				// the proof no longer goes through
 				violations++
 				path := writeReplay(cfg, eng, r, false)
 				fmt.Printf("VIOLATION property=%s replay=%s%s\n", cfg.Property, path, noInputSuffix(path))
